@@ -15,6 +15,7 @@ pub mod c15;
 pub mod c16;
 pub mod c17;
 pub mod cgr;
+pub mod coreeval;
 pub mod oligo;
 pub mod selfcheck;
 
@@ -37,6 +38,8 @@ const STAGES: &[(&str, StageFn)] = &[
     ("c05.free", c05::free),
     ("c05.configs", c05::configs),
     ("c05.cli", c05::cli),
+    ("c05.stress", c05::stress),
+    ("c14.stress", c05::stress),
     ("c06.files", c06::files),
     ("c06.suffixes", c06::suffixes),
     ("c06.cli_rows", c06::cli_rows),
@@ -53,6 +56,7 @@ const STAGES: &[(&str, StageFn)] = &[
     ("c10.sched_exhaustive", c10::sched_exhaustive),
     ("c10.sched_random", c10::sched_random),
     ("c10.cli", c10::cli),
+    ("c10.stress", c10::stress),
     ("c11.one", cgr::one),
     ("c11.reject", cgr::reject),
     ("c11.file", cgr::file),
@@ -68,6 +72,8 @@ const STAGES: &[(&str, StageFn)] = &[
     ("c17.lib", c17::lib),
     ("c17.cli", c17::cli),
     ("selfcheck", selfcheck::run),
+    ("core-eval", coreeval::core_eval),
+    ("ref-eval", coreeval::ref_eval),
     ("c18.exhaustive", c09::exhaustive18),
     ("c18.random", c09::random18),
 ];
